@@ -65,6 +65,11 @@ def run(ctx):
             jobs.append(("programs", mode, {"programs": sel_p[i::nshp], "nrandom": 1 if mode != "commit" else 0}, i))
         jobs.append(("reduce", mode, {"nrandom": 20 if (ctx.tier == "quick" or mode == "commit") else 400}, 0))
 
+    # the programs once more on gnark's real R1CS / SCS builders (compiled, solved with the honest hints)
+    nreal = len(progs) if ctx.tier == "thorough" else min(len(progs), 24)
+    for i in range(4):
+        jobs.append(("programs-real", "plain", {"programs": progs[:nreal][i::4]}, 40 + i))
+
     def one(j):
         part, mode, extra, i = j
         rq = {"part": part, "mode": mode, "shard": i}
